@@ -4,7 +4,8 @@
 import GraphiqModel.Proofs.InverseCircuit
 import GraphiqModel.Proofs.CanonUnique
 import GraphiqModel.Proofs.CanonCheck
-import GraphiqModel.Proofs.InnerProductDim
+import GraphiqModel.Proofs.InnerProductTotal
+import GraphiqModel.Proofs.InnerProductExec
 namespace Graphiq.C05
 open Graphiq Graphiq.PRow Graphiq.STab Graphiq.Tab
 
@@ -199,11 +200,23 @@ theorem overlap_dim_unique (A B : STab) (hg : A.Good) (hn : A.n = B.n) (d d2 : N
 def fidelity_self_statement : Prop :=
   ∀ (a : Tab) (r : Option Nat), (STab.ofTab a).Good → STab.innerProduct a a = .ok r → r = some 0
 
-/-- **Fidelity of a state with itself is 1** (every n; partial: under `hzero`, and whenever `inner_product` returns). -/
-theorem fidelity_self_partial (a : Tab) (s1 : STab) (circ : List Gate) (r : Option Nat) (ga : (STab.ofTab a).Good)
-    (hs : (STab.ofTab a).inverseCircuit = .ok (s1, circ)) (hzero : s1.isZero = true)
-    (h : STab.innerProduct a a = .ok r) : r = some 0 :=
-  (innerProduct_one_iff a a s1 circ r ga ga hs hzero h).2 (SpanEq.refl _)
+/-- **Fidelity of a state with itself is 1** (every n; partial: under `hzero`): if `inverse_circuit` returned on the
+    state and reached |0…0⟩, then `inner_product` of the state with itself returns, and returns 1.
+    Missing for `fidelity_self_statement`: `inverse_circuit` always reaches |0…0⟩ (false: `fidelity_self_statement_false`). -/
+theorem fidelity_self_partial (a : Tab) (s1 : STab) (circ : List Gate) (ga : (STab.ofTab a).Good)
+    (hs : (STab.ofTab a).inverseCircuit = .ok (s1, circ)) (hzero : s1.isZero = true) :
+    STab.innerProduct a a = .ok (some 0) :=
+  innerProduct_self a s1 circ ga hs hzero
+
+/-- **`inner_product` returns on every pair of valid states** (every n; no hypothesis on the synthesis reaching |0…0⟩):
+    for two tableaux of the same size with real commuting stabilizer halves, if `inverse_circuit` returned on the first
+    and the final assert of `canonical_form` passes on the second (its generators are independent), no internal assert of
+    `inner_product` fails — the transformed second state again has `n` independent generators and no `−I`, so the
+    elimination in `canonical_form` finds `n` pivots. -/
+theorem inner_product_returns (a b : Tab) (s1 cb : STab) (circ : List Gate) (ga : (STab.ofTab a).Good)
+    (gb : (STab.ofTab b).Good) (hn : a.n = b.n) (hs : (STab.ofTab a).inverseCircuit = .ok (s1, circ))
+    (hcb : (STab.ofTab b).canonicalForm = .ok cb) : ∃ r, STab.innerProduct a b = .ok r :=
+  innerProduct_total a b s1 cb circ ga gb hn hs hcb
 
 /-- full statement (kept visible, **false on the current code**): fidelity 1 iff same state -/
 def fidelity_one_iff_statement : Prop :=
@@ -242,6 +255,15 @@ theorem fidelity_symmetric_partial (a b : Tab) (sa sb : STab) (ca cb : List Gate
     (hsb : (STab.ofTab b).inverseCircuit = .ok (sb, cb)) (hzb : sb.isZero = true)
     (hab : STab.innerProduct a b = .ok rab) (hba : STab.innerProduct b a = .ok rba) : rab = rba :=
   innerProduct_symm a b sa sb ca cb rab rba ga gb hsa hza hsb hzb hab hba
+
+/-- **The executable specification is exact** (every n): the brute-force test `STab.orthB` (driver command `stab.overlap`,
+    which the correspondence harness compares with the *real* `fidelity` on every pair with n ≤ 3) decides `Orth`, and the
+    membership test behind its count `STab.commonCount` decides "this subset product of `a`'s rows lies in the group of
+    `b`" — so the predicates the fidelity theorems speak about are themselves checked against the code's values.
+    (That the count equals `2^dim(A ∩ B)` for independent generators is the textbook `|A ∩ B| = 2^dim`; not proved.) -/
+theorem overlap_spec_checker_exact (a b : STab) (ga : a.Good) (gb : b.Good) (hn : a.n = b.n) :
+    (a.orthB b = true ↔ Orth a b) ∧ ∀ ma, (a.commonB b ma = true ↔ b.Spn (mprod a.n a.row ma a.n)) :=
+  ⟨orthB_iff a b ga gb hn, commonB_iff a b gb hn⟩
 
 /-! ### Non-vacuity -/
 def bellMinus : STab :=   -- generators −XX, ZZ in the gauge (−XX·ZZ = YY, ZZ):  YY, ZZ
@@ -362,6 +384,13 @@ example : Orth (STab.ofTab bellPlusTab) (STab.ofTab bellMinusTab) ∧ OverlapDim
   have g3 : (STab.ofTab ket00Tab).Good := good_of_check _ (by decide)
   exact ⟨(inner_product_zero_iff_partial _ _ _ _ _ g1 g2 hs hz (ok_of_check _ _ (by decide +kernel))).1 rfl,
     (inner_product_exponent_partial _ _ _ _ 1 g1 g3 hs hz (ok_of_check _ _ (by decide +kernel))).2.2.1⟩
+
+/-- the hypotheses of `inner_product_returns` (second argument: `canonical_form` returns) and of
+    `overlap_spec_checker_exact`, which here evaluates to: orthogonal, two common elements with |00⟩ -/
+example : (∃ cb, (STab.ofTab bellMinusTab).canonicalForm = .ok cb) ∧
+    (STab.ofTab bellPlusTab).orthB (STab.ofTab bellMinusTab) = true ∧
+    (STab.ofTab bellPlusTab).commonCount (STab.ofTab ket00Tab) = 2 :=
+  ⟨⟨_, canonicalForm_ok _ (by decide)⟩, by decide +kernel, by decide +kernel⟩
 
 /-- the D42 witness of `C11.synthesis_incomplete` as a Clifford tableau (the destabilizer half is not read by
     `inner_product` on its first argument) -/
